@@ -79,6 +79,7 @@ func checkC12(w *World, r *Report) {
 		return found
 	}
 	var chokeCall ssa.CallInstruction
+	var binderCall *ssa.Call // when the binder is a sibling of the body renderer: its call in their common caller
 	if !hasParamLoop(choke) {
 		binder = nil
 		if node := w.callgraph().Nodes[choke]; node != nil {
@@ -88,9 +89,46 @@ func checkC12(w *World, r *Report) {
 				}
 			}
 		}
+		// … or a sibling: a function F calls both the binder (which has the parameter loop) and
+		// the function that renders the body, handing the same fresh context to both
+		var siblingCtx ssa.Value
+		if binder == nil {
+			if node := w.callgraph().Nodes[choke]; node != nil {
+				for _, e := range node.In {
+					if e.Site == nil || e.Site.Common().StaticCallee() != choke {
+						continue
+					}
+					f := e.Caller.Func
+					instrsOf(f, func(in ssa.Instruction) {
+						c, ok := in.(*ssa.Call)
+						if !ok || binder != nil {
+							return
+						}
+						b := c.Call.StaticCallee()
+						if b == nil || b == choke || !hasParamLoop(b) {
+							return
+						}
+						// the context given to the body renderer is also given to the binder
+						for ci, cp := range choke.Params {
+							if !isNamed(cp.Type(), twigPath, "RenderContext") || ci >= len(e.Site.Common().Args) {
+								continue
+							}
+							bodyCtx := e.Site.Common().Args[ci]
+							for _, ba := range c.Call.Args {
+								if ba == bodyCtx {
+									binder, chokeCall, siblingCtx = b, e.Site, bodyCtx
+									binderCall = c
+								}
+							}
+						}
+					})
+				}
+			}
+		}
 		if binder == nil {
 			cannotDecide("R12.2: no function iterating over MacroNode.params renders the macro body or calls the function that does (%s)", ssaName(choke))
 		}
+		_ = siblingCtx
 	}
 
 	// ---- R12.3
@@ -158,28 +196,73 @@ func checkC12(w *World, r *Report) {
 	checkResolvesThroughLoad(w, r, "R12.5", []string{"ImportNode", "FromImportNode"}, "the directive keeps whatever macros are bound under its names already instead of binding the macros of the library it names: a macro reached through this import is another macro than the same name reached through `import … as`")
 
 	// ---- R12.2
+	if binderCall != nil && macroCtx != nil {
+		// inside the sibling binder the macro's context is the parameter that receives it
+		for i, a := range binderCall.Call.Args {
+			if a == macroCtx && i < len(binder.Params) {
+				macroCtx = binder.Params[i]
+			}
+		}
+	}
 	checkMacroBinding(w, r, binder, macroCtx, setVar, evalM)
 
 	// ---- R12.4
-	chokeObj, _ := binder.Object().(*types.Func)
 	n4 := 0
-	for _, fn := range w.pkgFuncs() {
-		instrsOf(fn, func(in ssa.Instruction) {
-			c, ok := in.(ssa.CallInstruction)
-			if !ok || calleeFunc(c) != chokeObj || chokeObj == nil {
-				return
+	var checkCallers func(target *ssa.Function, depth int)
+	seenTargets := map[*ssa.Function]bool{}
+	checkCallers = func(target *ssa.Function, depth int) {
+		if seenTargets[target] || depth > 2 {
+			return
+		}
+		seenTargets[target] = true
+		targetObj, _ := target.Object().(*types.Func)
+		if targetObj == nil {
+			return
+		}
+		// which parameter carries the argument list?
+		argIdx := -1
+		for i, p := range target.Params {
+			if sl, ok := p.Type().Underlying().(*types.Slice); ok {
+				if it, ok := sl.Elem().Underlying().(*types.Interface); ok && it.NumMethods() == 0 {
+					argIdx = i
+				}
 			}
-			n4++
-			args := callArgs(c)
-			last := args[len(args)-1]
-			construct := "arguments handed to " + ssaName(binder)
-			if why := macroArgsOrigin(w, last, evalM, 0); why != "" {
-				r.ok("R12.4", ssaName(fn), construct, w.posOf(in.Pos()), why, true)
-			} else {
-				r.bad("R12.4", ssaName(fn), construct, w.posOf(in.Pos()), "the argument list of this call form is neither forwarded unchanged nor built by evaluating the call's argument expressions in order: this way of reaching a macro binds different values than the others")
-			}
-		})
+		}
+		if argIdx < 0 {
+			return
+		}
+		for _, fn := range w.pkgFuncs() {
+			instrsOf(fn, func(in ssa.Instruction) {
+				c, ok := in.(ssa.CallInstruction)
+				if !ok || calleeFunc(c) != targetObj {
+					return
+				}
+				cc := c.Common()
+				ai := argIdx
+				if cc.IsInvoke() {
+					ai--
+				}
+				if ai < 0 || ai >= len(cc.Args) {
+					return
+				}
+				last := cc.Args[ai]
+				// a function that only hands its own argument list on is transparent: its callers
+				// are the call forms
+				if p, isP := last.(*ssa.Parameter); isP && depth < 2 && fn.Object() != nil && p.Parent() == fn {
+					checkCallers(fn, depth+1)
+					return
+				}
+				n4++
+				construct := "arguments handed to " + ssaName(target)
+				if why := macroArgsOrigin(w, last, evalM, 0); why != "" {
+					r.ok("R12.4", ssaName(fn), construct, w.posOf(in.Pos()), why, true)
+				} else {
+					r.bad("R12.4", ssaName(fn), construct, w.posOf(in.Pos()), "the argument list of this call form is neither forwarded unchanged nor built by evaluating the call's argument expressions in order: this way of reaching a macro binds different values than the others")
+				}
+			})
+		}
 	}
+	checkCallers(binder, 0)
 	r.floor("call sites of the macro choke point", n4, 3)
 }
 
